@@ -54,3 +54,11 @@ Theorem C17_reimage_old_refuted : exists D M K r2 p sym,
   ~ (qf (gram_of M) (reimage_old D (vsub3 p sym)) * snd r2 < fst r2).
 Proof. exact reimage_old_refuted. Qed.
 Print Assumptions C17_reimage_old_refuted.
+
+(* the computation as the code writes it (re-image the position, apply the inverse operation, subtract the site) gives the model's points
+   (inverse rotation of the re-imaged difference), for every list of operations paired with their inverses *)
+Theorem C17_literal_points : forall D G K r2 ops site positions,
+  (forall oi, In oi ops -> inverse_of (fst oi) (snd oi)) ->
+  points_literal D G K r2 ops site positions = points D G K r2 (map (fun oi => (fst oi, W (snd oi))) ops) site positions.
+Proof. exact points_literal_is_model. Qed.
+Print Assumptions C17_literal_points.
